@@ -23,7 +23,7 @@ WORLD_INFO = {'real': ['ConnectionHeartbeat, HeartbeatFuture, Connection idle tr
                        'ControlConnection.return_connection', 'Cluster/Session wiring of connection holders'],
               'stub': ['libev C binding', 'sockets/TCP', 'ThreadPoolExecutor', 'fake nodes (OPTIONS on a ready connection = heartbeat)']}
 ASSUMPTIONS = ['idle means: no message received since the previous round (DESIGN 5.1 item 11)']
-REQUIRED_PROBES = ['heartbeat_ok', 'heartbeat_dropped', 'heartbeat_error', 'busy_round_skipped', 'many_rounds_small_capacity']
+REQUIRED_PROBES = ['heartbeat_on_unwritable_connection', 'heartbeat_ok', 'heartbeat_dropped', 'heartbeat_error', 'busy_round_skipped', 'many_rounds_small_capacity']
 
 
 def prepare():
@@ -57,7 +57,8 @@ def gen_plan(rng, tier):
                         'every': rng.choice([0.1, 0.2])})
     return {'cluster': spec, 'version': rng.choice([3, 4, 5]), 'interval': interval, 'timeout': timeout, 'rounds': rounds,
             'knobs': {'max_in_flight': rng.choice([3, 4, 8]), 'orphaned_threshold': 1000},
-            'hb_script': hb, 'windows': windows, 'strategy': gen_strategy(rng), 'time_jump_p': 0}
+            'hb_script': hb, 'windows': windows, 'strategy': gen_strategy(rng), 'time_jump_p': 0,
+            'eagain': ({'node': rng.randrange(n), 'at': round(rng.uniform(0.3, rounds * interval * 0.5), 3)} if rng.random() < 0.25 else None)}
 
 
 def run_plan(plan, seed, choices=None):
@@ -84,8 +85,28 @@ def run_plan(plan, seed, choices=None):
         hosts = dict((str(h.endpoint.address), h) for h in cluster.metadata.all_hosts())
         for wi, win in enumerate(plan['windows']):
             w.spawn(traffic, 'traffic%d' % wi, wi, win, hosts)
+        if plan.get('eagain'):
+            w.spawn(backpressure, 'backpressure', plan['eagain'], hosts)
         w.sleep(plan['rounds'] * I)
         st['t_end'] = sim.vnow()
+
+    def backpressure(bp, hosts):
+        # the kernel send buffer of that node's pooled connection fills up and stays full (peer stopped reading)
+        w.sleep(bp['at'])
+        node = fc.nodes[bp['node']]
+        for nc in node.conns:
+            if not nc.events and not nc.closed:
+                nc.conn.sock.room_left = 20
+                nc.conn.sock.force_eagain = True
+                st.setdefault('eagain_socks', []).append((nc.conn.sock, sim.vnow()))
+        sim.rec('fault', 'send buffer full n%d' % node.idx)
+        w.net.count('send_buffer_full')
+        o = obs[9000] = ReqObs(w, 9000)
+        try:
+            o.start(w.session, "SELECT * FROM ks1.t /*rid=9000*/", timeout=0.4, host=hosts.get(node.addr))
+            o.wait()
+        except Exception as e:
+            o.result = ('err', type(e).__name__, '')
 
     def traffic(wi, win, hosts):
         w.sleep(win['t0'])
@@ -154,7 +175,8 @@ def run_plan(plan, seed, choices=None):
                 if recent:
                     # was the previous round held up by a silent/failing heartbeat on some other connection?
                     slow_round = any(e2.get('behaviour') in ('drop', 'error') and hbe['t'] - I - T - 0.3 < e2['t'] < hbe['t']
-                                     for n2 in fc.nodes for e2 in n2.log if e2['op'] == 'OPTIONS' and e2.get('ready'))
+                                     for n2 in fc.nodes for e2 in n2.log if e2['op'] == 'OPTIONS' and e2.get('ready')) or \
+                        any(t0 < hbe['t'] for (_sk, t0) in st.get('eagain_socks', []))
                     V.add('C44/skip-busy', 'heartbeat-on-busy-connection' + (':after-round-delayed-by-silent-peer' if slow_round else ''),
                           'node %d %s: heartbeat at %.3f although a response was delivered at %.3f (interval %.2f)' % (n.idx, nc.label, hbe['t'], recent[-1]['t'], I))
             if replies and len(hbs) < max(0, int(((socks[nc.label].closed_t or st.get('t_end', 0)) - (st.get('t_connected', 0))) / I) - 1):
@@ -186,6 +208,14 @@ def run_plan(plan, seed, choices=None):
                 # closed before the run ended although every heartbeat was answered; allowed only if its host went down
                 V.add('C44/no-leak', 'healthy-connection-closed', 'node %d %s: every heartbeat was answered ok, yet the driver closed the socket at %.3f (by %s)'
                       % (n.idx, nc.label, s.closed_t, s.closed_by))
+    for (sk, t0) in st.get('eagain_socks', []):
+        V.check('C44/detect')
+        sim.probe('heartbeat_on_unwritable_connection')
+        limit = t0 + 2 * I + T + 0.5
+        if st.get('t_end', 0) > limit + 0.1 and (sk.closed_t is None or sk.closed_t > limit):
+            V.add('C44/detect', 'unwritable-idle-connection-not-closed',
+                  'socket fd=%d could not be written since %.3f (send buffer full) and stayed idle, but was %s (limit %.3f, interval %.2f)'
+                  % (sk.fd, t0, 'closed at %.3f' % sk.closed_t if sk.closed_t is not None else 'never closed', limit, I))
     for (seq, serial, f, orph) in leaks[:1]:
         V.add('C44/no-leak', 'in-flight-leak', 'between two heartbeat rounds at the end of the run (seq %d) connection #%d still had in_flight=%d with no request outstanding (orphaned %r)'
               % (seq, serial, f, orph))
